@@ -25,8 +25,8 @@ import (
 
 // ---------- generation ----------
 
-var dims = []string{"cutAB", "cutBA", "rerrAB", "rerrBA", "rerrnAB", "rerrnBA", "werr0AB", "werrpAB", "werraAB", "werr0BA", "werrpBA", "werraBA", "shortAB", "shortBA", "closeA", "closeB"}
-var fdims = []string{"cut", "rerr", "rerrn", "werr0", "werrp", "werra", "short"}
+var dims = []string{"cutAB", "cutBA", "rerrAB", "rerrBA", "rerrnAB", "rerrnBA", "werr0AB", "werrpAB", "werraAB", "werr0BA", "werrpBA", "werraBA", "shortAB", "shortBA", "closeA", "closeB", "werr1AB", "werr1BA"}
+var fdims = []string{"cut", "rerr", "rerrn", "werr0", "werrp", "werra", "short", "werr1"}
 
 func gen(g *kernel.Rng, seed uint64, tier string) *kernel.Plan {
 	p := &kernel.Plan{Property: "C08", Seed: seed, Cfg: map[string]int64{"enum": 1}}
@@ -94,7 +94,7 @@ func gen(g *kernel.Rng, seed uint64, tier string) *kernel.Plan {
 		p.Variant = "errors"
 		n := g.Range(0, 9)
 		for i := 0; i < n; i++ {
-			p.Ops = append(p.Ops, kernel.Op{K: []string{"WithStack", "WithMessage", "Wrap", "Wrapf"}[g.Intn(4)], S: []string{fmt.Sprintf("layer %d %s", i, []string{"", "a: b", "%v", "é"}[g.Intn(4)])}})
+			p.Ops = append(p.Ops, kernel.Op{K: []string{"WithStack", "WithMessage", "Wrap", "Wrapf", "Foreign"}[g.Pick(3, 3, 3, 3, 2)], S: []string{fmt.Sprintf("layer %d %s", i, []string{"", "a: b", "%v", "é"}[g.Intn(4)])}})
 		}
 		p.Cfg["root"] = int64(g.Intn(5))
 	}
@@ -437,13 +437,16 @@ func rtmpFaults(p *kernel.Plan, b *rbase) []kernel.Fault {
 	case strings.HasPrefix(dim, "werr"):
 		for j := 0; j < db.W; j++ {
 			arg := int64(0)
+			kind := "werr"
 			switch dim[4] {
 			case 'p':
 				arg = int64(1 + j%5)
 			case 'a':
 				arg = 1 << 40
+			case '1':
+				kind = "werr1" // transient: only this one write call fails
 			}
-			out = append(out, kernel.Fault{K: "werr", W: w, At: int64(j), Arg: arg})
+			out = append(out, kernel.Fault{K: kind, W: w, At: int64(j), Arg: arg})
 		}
 	case strings.HasPrefix(dim, "short"):
 		for j := 0; j < db.W; j++ {
@@ -606,6 +609,10 @@ func runFLV(p *kernel.Plan, res *kernel.Result) {
 			for j := 0; j < wcalls; j++ {
 				faults = append(faults, kernel.Fault{K: "werr", At: int64(j), Arg: 1 << 40})
 			}
+		case "werr1":
+			for j := 0; j < wcalls; j++ {
+				faults = append(faults, kernel.Fault{K: "werr1", At: int64(j)})
+			}
 		case "short":
 			for j := 0; j < wcalls; j++ {
 				faults = append(faults, kernel.Fault{K: "short", At: int64(j), Arg: int64(j % 3)})
@@ -766,13 +773,13 @@ func flvOne(p *kernel.Plan, res *kernel.Result, f kernel.Fault, file []byte, tag
 		res.Stat("fault_cut", int64(d.St.Cuts))
 		res.Stat("fault_read_error", int64(d.St.ReadErrs))
 		res.Stat("short_reads", int64(d.St.ShortReads))
-	case "werr", "short":
+	case "werr", "werr1", "short":
 		d := simnet.NewPipe("disk", nil, tape)
 		d.NoYield = true
 		d.Record = true
 		want := error(rtmpx.ErrInjWrite)
-		if f.K == "werr" {
-			d.WErrAt, d.WErrN, d.WErr, d.WErrStick = int(f.At), int(f.Arg), rtmpx.ErrInjWrite, true
+		if f.K == "werr" || f.K == "werr1" {
+			d.WErrAt, d.WErrN, d.WErr, d.WErrStick = int(f.At), int(f.Arg), rtmpx.ErrInjWrite, f.K == "werr"
 		} else {
 			d.ShortAt, d.ShortN = int(f.At), int(f.Arg)
 			want = io.ErrShortWrite
@@ -845,6 +852,15 @@ type plainErr struct{ s string }
 
 func (e *plainErr) Error() string { return e.s }
 
+// foreignErr is an application error type that implements Cause() itself.
+type foreignErr struct {
+	msg   string
+	inner error
+}
+
+func (e *foreignErr) Error() string { return e.msg + ": " + e.inner.Error() }
+func (e *foreignErr) Cause() error  { return e.inner }
+
 func runErrors(p *kernel.Plan, res *kernel.Result) {
 	roots := []error{io.EOF, errors.New("root cause"), &plainErr{"plain: with colon"}, oe.New("oryx new"), oe.Errorf("oryx %v", 42)}
 	root := roots[int(p.C("root"))%len(roots)]
@@ -872,6 +888,9 @@ func runErrors(p *kernel.Plan, res *kernel.Result) {
 			text = m + ": " + text
 		case "Wrapf":
 			err = oe.Wrapf(err, "%s", m)
+			text = m + ": " + text
+		case "Foreign":
+			err = &foreignErr{m, err}
 			text = m + ": " + text
 		default:
 			res.Invalid = true
